@@ -331,8 +331,11 @@ def search_c10(rng, n, S=None, kinds=None):
             mc = rand_mesh(rng, kind, nmax=6)
         else:
             dim = DIM[kind]
-            Ns = [rng.choice([1, 2, 3, 5]) for _ in range(dim)]
-            Ls = [rng.choice([1.0, 0.5, 3.0]) for _ in range(dim)]
+            # (N, L) form: also the pairs for which a float-step arange would give one face too many (N = 6, 9, 12, 21, ...)
+            Ns = [rng.choice([1, 2, 3, 5, 6, 9, 12, 21, 24, 28]) for _ in range(dim)]
+            while dim == 3 and Ns[0] * Ns[1] * Ns[2] > 2000:
+                Ns[rng.randrange(3)] = rng.choice([1, 2, 3])
+            Ls = [rng.choice([1.0, 0.5, 3.0, float(np.pi)]) for _ in range(dim)]
             mc = MeshCase(kind, [np.linspace(0, L, nn + 1) for nn, L in zip(Ns, Ls)], nl=(Ns, Ls))
         m = mc.m
         inp = case_of(mc)
